@@ -869,3 +869,71 @@ class World(object):
 
     def server_alive(self):
         return self.thread.is_alive() and self.state != "dead"
+
+
+# ------------------------------------------------------------------------------------------
+# observation-only instrumentation of a connection object (instance attributes; no source edit)
+# ------------------------------------------------------------------------------------------
+class ConnWatch(object):
+    """records, for every datagram handed to conn._recv_datagram and every message handed to conn._recv_message,
+    what the endpoint's windows looked like just before.  Pure observation: the original bound methods run unchanged."""
+
+    def __init__(self, conn, clock):
+        self.conn = conn
+        self.clock = clock
+        self.seen_datagrams = set()
+        self.cur_copy = False
+        self.cur_dgram_seq = None
+        self.datagrams = []       # (t, seq, is_copy, accepted, lag_vs_newest)
+        self.messages = {}        # msgseq -> list of (t, lag_before, is_copy_carrier, dgram_seq, type), ACCEPTED messages only
+        self.rejected = 0         # messages the window flagged as duplicates
+        self.frag_gone = []       # (t, frag_id) reassembly contexts that disappeared without completing
+        orig_dg = conn._recv_datagram
+        orig_msg = conn._recv_message
+        watch = self
+
+        def recv_datagram(hdr, datagram):
+            key = bytes(datagram)
+            watch.cur_copy = key in watch.seen_datagrams
+            watch.seen_datagrams.add(key)
+            watch.cur_dgram_seq = int(hdr.seq)
+            cur = conn.bitfield_pkt.current_seqnum
+            lag = int(cur.diff(hdr.seq)) if int(cur) else 0
+            ok = None
+            try:
+                ok = orig_dg(hdr, datagram)
+                return ok
+            finally:
+                watch.datagrams.append((clock.t, int(hdr.seq), watch.cur_copy, ok, lag))
+                watch.cur_copy = False
+
+        def recv_message(pkt_typ, msgseq, msg):
+            cur = conn.bitfield_msg.current_seqnum
+            lag = int(cur.diff(msgseq)) if int(cur) else 0
+            before = set(conn.received_fragments)
+            # flagged duplicate by the receive window? (BitField.contains is pinned by C08)
+            accepted = not (int(cur) and conn.bitfield_msg.contains(msgseq))
+            if accepted:
+                watch.messages.setdefault(int(msgseq), []).append((clock.t, lag, watch.cur_copy, watch.cur_dgram_seq, getattr(pkt_typ, "value", pkt_typ)))
+            else:
+                watch.rejected += 1
+            n_in = len(conn.incoming_messages)
+            cur_fid = None
+            if getattr(pkt_typ, "value", pkt_typ) == T_FRAGMENT and len(msg) >= 6:
+                cur_fid = struct.unpack(">H", msg[:2])[0]
+            try:
+                return orig_msg(pkt_typ, msgseq, msg)
+            finally:
+                after = set(conn.received_fragments)
+                completed = len(conn.incoming_messages) > n_in
+                purged = set(before - after)
+                if cur_fid is not None and cur_fid not in after and cur_fid not in before:
+                    purged.add(cur_fid)
+                if completed:
+                    purged.discard(cur_fid)
+                for fid in purged:
+                    # a reassembly context that vanished without delivering its message
+                    watch.frag_gone.append((clock.t, fid))
+
+        conn._recv_datagram = recv_datagram
+        conn._recv_message = recv_message
